@@ -45,7 +45,7 @@ def outcome_of(r):
 def lib_format(lib, text_bytes, tmp, n):
     p = os.path.join(tmp, "libin%d.bin" % n)
     write(p, text_bytes)
-    r = run([sys.executable, os.path.join(HERE, "libcall.py"), lib, p], timeout=40)
+    r = run([sys.executable, os.path.join(HERE, "libcall.py"), lib, p], timeout=150)
     oc, site = outcome_of(r)
     ret = None
     if oc == "ok":
@@ -125,13 +125,13 @@ class Runner:
              "ret": "", "outcome": "ok", "langs": list(langs), "tree": {"none": {"none": ""}}, "elsewhere": [], "nfiles": 0, "dirshape": dirshape}
         site = ""
         if op == "format-d":
-            r = run([self.cli, "format", "-d", text], cwd=wd, env=env, timeout=40)
+            r = run([self.cli, "format", "-d", text], cwd=wd, env=env, timeout=150)
             e["outcome"], site = outcome_of(r)
             e["stdout"], e["exit"] = r.stdout, r.returncode
         elif op == "format-f":
             p = os.path.join(wd, "in.dsl")
             write(p, text.encode("utf-8", "surrogateescape"))
-            r = run([self.cli, "format", "-f", p], cwd=wd, env=env, timeout=40)
+            r = run([self.cli, "format", "-f", p], cwd=wd, env=env, timeout=150)
             e["outcome"], site = outcome_of(r)
             e["exit"] = r.returncode
             e["before"] = text
@@ -164,7 +164,7 @@ class Runner:
             args = [self.cli] + (["compile"] if op == "compile-word" else []) + ["-f", "in.dsl"]
             for l in langs:
                 args += [FLAG[l], dirs[l]]
-            r = run(args, cwd=wd, env=env, timeout=60)
+            r = run(args, cwd=wd, env=env, timeout=240)
             e["outcome"], site = outcome_of(r)
             e["exit"] = r.returncode
             tree = {}
@@ -461,7 +461,7 @@ def check_c11(tier):
                       "how": "fin-protoc format -d / format -f / compile with all outputs; libpacketdsl.so FormatPacketDslExport in a child process"})
     rep.sample({"inputs": [l for l, _ in inputs[:12]], "entry_points": ["format -d", "format -f", "FormatPacketDslExport", "compile (6 targets)"]})
     rep.assumptions += ["byte-level mutations and binary strings are seeded (VERIF_SEED); their signatures are at panic-site granularity",
-                        "hang = no termination within 40 s (60 s for compile)"]
+                        "hang = no termination within 150 s (240 s for compile): generous on purpose, a loaded machine must not produce a false hang"]
     return rep.finish("every document / token mutation (truncate, drop, duplicate at every %s token) / optional-element form / Validate.tla fault "
                       "case / deep nesting / seeded byte mutation through format -d, format -f, the C library and compile; outcome validated by TLC "
                       "against Entry.tla (only result | diagnostic are outcomes); distinct = (entry point, input class) and, for failures, (entry point, panic site)"
